@@ -23,7 +23,7 @@ func init() {
 	props["C14"] = func(c *ctx) { genBundle(c, true) }
 }
 
-var bLocs = []string{"https://perm.test", "https://tp1.test", "https://tp2.test", "https://other.test"}
+var bLocs = []string{flyio.LocationPermission, "https://tp1.test", "https://tp2.test", "https://other.test"}
 
 func bLocID(l string) uint64 {
 	for i, x := range bLocs {
@@ -430,6 +430,12 @@ func genBundle(c *ctx, cached bool) {
 		for i := 0; i < 10; i++ {
 			if f := bundleAttenuate3P(c.r.Fork()); f != "" {
 				st.Add(&cs.Case{Coq: "(KBun (mkTab [] [] [] []) [] [])", Class: "attenuate-3p", Nontrivial: true, Desc: map[string]any{"what": "Verify; Attenuate(third-party caveat); Validate"}, OracleFail: f})
+				break
+			}
+		}
+		for i := 0; i < 6; i++ {
+			if f := partialVerifierOracle(c.r.Fork()); f != "" {
+				st.Add(&cs.Case{Coq: "(KBun (mkTab [] [] [] []) [] [])", Class: "partial-verifier", Nontrivial: true, Desc: map[string]any{"what": "Verify with a Verifier that answers for only some tokens"}, OracleFail: f})
 				break
 			}
 		}
@@ -841,9 +847,27 @@ func genBundle(c *ctx, cached bool) {
 				// Map / ForEach / Reduce visit exactly the tokens, in order
 				strs := bundle.Map(b, func(t bundle.Token) string { return t.String() })
 				cnt := bundle.Reduce(b, func(n int, t bundle.Token) int { return n + 1 })
+				if nmac := bundle.Reduce(b, func(n int, t bundle.Macaroon) int { _ = t.String(); return n + 1 }); nmac != b.Count(bundle.IsWellFormedMacaroon) && oracle == "" {
+					oracle = fmt.Sprintf("Reduce over the macaroons visits %d tokens, Count(IsWellFormedMacaroon) = %d", nmac, b.Count(bundle.IsWellFormedMacaroon))
+				}
 				if (len(strs) > 0 && "FlyV1 "+strings.Join(strs, ",") != b.Header()) || cnt != b.Len() || len(strs) != b.Len() {
 					if oracle == "" {
 						oracle = fmt.Sprintf("Map/Reduce over the bundle disagree with Header()/Len(): %d strings, count %d, Len %d", len(strs), cnt, b.Len())
+					}
+				}
+				// flyio.IsForOrgUnverified(o): the permission tokens whose caveats, read without verification, scope them to o
+				for _, o := range []uint64{1, 2, 3} {
+					want := 0
+					bundle.ForEach(b, func(t bundle.Macaroon) {
+						if t.Location() != bLocs[0] {
+							return
+						}
+						if os, err := flyio.OrganizationScope(&t.UnsafeMacaroon().UnsafeCaveats); err == nil && os == o {
+							want++
+						}
+					})
+					if got := b.Count(flyio.IsForOrgUnverified(o)); got != want && oracle == "" && bLocs[0] == flyio.LocationPermission {
+						oracle = fmt.Sprintf("flyio.IsForOrgUnverified(%d) selects %d tokens; %d permission tokens are scoped to that organisation", o, got, want)
 					}
 				}
 				nm := bundle.Map(b, func(t bundle.Macaroon) string { return t.String() })
@@ -1020,6 +1044,63 @@ func bundleAttenuate3P(r *rng.R) string {
 // bundleAttenuateFailed: a caveat added through Bundle.Attenuate sticks to EVERY permission token, also to one whose earlier
 // verification failed (say, its discharge had not been fetched yet): Verify fails; Attenuate(read only) succeeds; Discharge;
 // Verify succeeds; then a write must be refused by the bundle and by a server re-parsing its header.
+// partialVerifierOracle: a Verifier that answers for only SOME of the permission tokens it is asked about (or for none):
+// the unanswered tokens stay as they were, nothing crashes, and only answered-and-accepted tokens clear requests
+func partialVerifierOracle(r *rng.R) (fail string) {
+	defer func() {
+		if p := recover(); p != nil {
+			fail = fmt.Sprintf("panic after a Verifier answered for only some tokens: %v", p)
+		}
+	}()
+	key := macaroon.NewSigningKey()
+	var hdrs []string
+	for i := 0; i < 3; i++ {
+		m, _ := macaroon.New([]byte{'k', byte(i)}, bLocs[0], key)
+		m.Add(&flyio.Organization{ID: uint64(i + 1), Mask: resset.ActionAll})
+		s, _ := m.String()
+		hdrs = append(hdrs, s)
+	}
+	b, _ := bundle.ParseBundle(bLocs[0], strings.Join(hdrs, ","))
+	inner := bundle.WithKeys(map[string]macaroon.SigningKey{"k\x00": key, "k\x01": key, "k\x02": key}, nil)
+	skip := r.Intn(3)
+	partial := bundle.VerifierFunc(nil)
+	_ = partial
+	v := verifierOmitting{inner: inner, omitKID: []byte{'k', byte(skip)}, none: r.P(1, 4)}
+	b.Verify(context.Background(), v)
+	if b.Len() != 3 {
+		return fmt.Sprintf("bundle has %d tokens after a partial verification, had 3", b.Len())
+	}
+	_ = b.Header()
+	for i := 0; i < 3; i++ {
+		o := uint64(i + 1)
+		ok := b.Validate(&flyio.Access{OrgID: &o, Action: resset.ActionRead}) == nil
+		want := i != skip && !v.none
+		if ok != want {
+			return fmt.Sprintf("after a Verifier that left token %d unanswered (none=%v), the request for organisation %d is cleared=%v", skip, v.none, o, ok)
+		}
+	}
+	return ""
+}
+
+type verifierOmitting struct {
+	inner   bundle.Verifier
+	omitKID []byte
+	none    bool
+}
+
+func (v verifierOmitting) Verify(ctx context.Context, d map[bundle.Macaroon][]bundle.Macaroon) map[bundle.Macaroon]bundle.VerificationResult {
+	if v.none {
+		return nil
+	}
+	res := v.inner.Verify(ctx, d)
+	for p := range res {
+		if string(p.Nonce().KID) == string(v.omitKID) {
+			delete(res, p)
+		}
+	}
+	return res
+}
+
 func bundleAttenuateFailed(r *rng.R) string {
 	key := macaroon.NewSigningKey()
 	ka := macaroon.NewEncryptionKey()
